@@ -72,10 +72,10 @@ def run(res):
         "builder configurations: no contacts; 1-5 or 12-40 plain nodes; nodes overlapping with routers; routers only; only silent/"
         "error/garbage contacts - with outages of 3 s .. 2 h before a contact becomes responsive (continuous or flapping) and 0-5 "
         "concurrent bootstrapped() callers at random times; the checker reads panics, API liveness (state, local_addr, contacts), "
-        "resolution times of every caller, datagram counts. Every handler event is replayed through the Coq model. distinct = "
+        "resolution times of every caller, datagram counts. Every handler event is replayed through the Coq handler model and every received datagram's routing (pending bootstrap exchange / handler / dropped) through the Coq socket model. distinct = "
         "distinct scenarios.",
-        ["the bootstrap attempt loop is exercised, not modelled (only its registry, contact list and back-off are)"],
-        validate=True, max_validate_events=900)
+        ["the bootstrap attempt loop is exercised, not modelled (only its registry, contact list, back-off and the socket demultiplexer are)"],
+        validate=True, max_validate_events=900, socket_replay=True)
 
 
 def replay(path):
